@@ -42,7 +42,7 @@ def build(case):
         passed = fn(s, fr, **kw)
         evars = [fr.horizontal[y, x] if a == "h" else fr.vertical[y, x] for a, y, x, _ in frame_edges(h, w)]
         return s, evars, passed
-    g = gcheck.make_graph(case["n"], case["edges"])
+    g = gcheck.make_graph(case["n"], case["edges"], case.get("grown"))
     e = s.bool_array(len(case["edges"]))
     passed = fn(s, e if case.get("array") else list(e), g, **kw)
     return s, list(e), passed
@@ -100,7 +100,7 @@ def run_case(part, case, prange=None):
                 cls = "nonempty"
             fixes = [gcheck.fix(v, b) for v, b in zip(evars, pattern)]
             got = gcheck.judge(part, key + "{" + cls + "}", case, pattern, exp, s, fixes)
-            if got and exp:
+            if got and exp and not case.get("no_force_check"):
                 vis = graphref.visited(n, act)
                 differs = BoolExpr(Op.OR, [BoolExpr(Op.XOR, [pv, b]) for pv, b in zip(pvars, vis)])
                 part.count("evaluations")
@@ -165,6 +165,18 @@ def scale_cases(tier):
         for kind in ("cycle", "path"):
             for ugp in ((False, True) if kind == "cycle" else (True,)):
                 out.append({"kind": kind, "shape": [h, w], "ugp": ugp, "cfg": False, "patterns": pats})
+    # large family: more than 4096 segments / 2048 lattice points (line graph through the native route)
+    for k in ((45,) if tier == "quick" else (45, 64)):
+        orr = lambda a, b: [p_ or q for p_, q in zip(a, b)]  # noqa: E731
+        allc = [(y, x) for y in range(k) for x in range(k)]
+        per = region_boundary(k, k, allc)
+        br = region_boundary(k, k, [(k - 1, k - 1)])
+        two = orr(region_boundary(k, k, [(k - 1, 0)]), region_boundary(k, k, [(0, k // 2)]))
+        segs = frame_edges(k, k)
+        bottom = [a == "h" and y == k for a, y, x, _ in segs]
+        pats = [per, br, two, bottom, [False] * len(segs)]
+        out.append({"kind": "cycle", "shape": [k, k], "ugp": True, "cfg": False, "patterns": pats, "no_force_check": True})
+        out.append({"kind": "path", "shape": [k, k], "ugp": True, "cfg": False, "patterns": pats, "no_force_check": True})
     return out
 
 
@@ -213,6 +225,11 @@ def prepare(tier):
     global _CASES
     base_cases = cases_for(tier)
     used = [dict(c, used=True) for c in base_cases[:: (7 if tier == "quick" else 3)] if _small(c)]
+    # Graph objects with a history: some edges added only after the object has been used by other constraints
+    for c in base_cases[:: (5 if tier == "quick" else 2)]:
+        if "edges" in c and "shape" not in c and 2 <= len(c["edges"]) <= 5 and c.get("n", 9) <= 4:
+            used.append(dict(c, grown=1))
+            used.append(dict(c, grown=len(c["edges"]) - 1))
     _CASES = base_cases + used + scale_cases(tier)
     return _CASES
 
@@ -246,7 +263,7 @@ def main(tier, seed, only=None):
         "exploration",
         "all labelled loop-free multigraphs %s (multiplicity<=2; 3 for n=2) in up to 3 edge-list presentations%s; BoolGridFrame "
         "sizes %s; all 2^m edge subsets; single_cycle with auxiliary and native encodings (explicit flag and config default), "
-        "single_path in native form (non-native must raise RuntimeError).  Scale family (not exhaustive): on frames up to 4x4 / 2x6 (thorough 6x6) the perimeter, the boundary of the "
+        "single_path in native form (non-native must raise RuntimeError).  Scale family (not exhaustive): the 45x45 frame (4140 segments; thorough 64x64) through the native route, and on frames up to 4x4 / 2x6 (thorough 6x6) the perimeter, the boundary of the "
         "serpentine corridor, two disjoint cycles, the perimeter minus one segment, a Hamiltonian path through all lattice points and that path cut in two.  Oracle: empty, or exactly one simple cycle / path "
         "(degrees + one component); for each admitted subset a second solve with OR(passed[v] != visited[v]) must be UNSAT."
         % (
